@@ -13,6 +13,14 @@ fractions below 1, Fraction, Decimal, huge ints, infinities, -0.0 for "equal") a
 difference of the keys, and is handed to the template as keyword, as attribute of the client or in
 the mapping argument, under its own name or under an alias that other renderings bind to another
 function.
+
+Names: the variable name of a sort option is an attribute name / mapping key and is taken exactly as it is
+spelled (case, punctuation, non-ASCII letters, names that are also option words such as `desc` or `cmp`);
+the elements also carry *distractor* entries under the names that a normalisation of the option (lower / upper /
+swapcase / title / casefold / NFKC / '-' <-> '_') would produce, with unrelated keys, so that looking up any
+other spelling than the written one shows as a wrong order.  The same for names of comparison functions taken
+from the namespace, and for namespace entries that merely share the name of a predefined function or of a
+direction word.  A rendering that does not return within the time limit is a failure, not waited for.
 """
 import copy
 import datetime
@@ -20,6 +28,8 @@ import decimal
 import fractions
 import functools
 import json
+import signal
+import unicodedata
 import locale      # before DocumentTemplate: DT_In offers locale / strcoll only if locale is already imported
 
 import common
@@ -159,9 +169,60 @@ def locale_ok():
     return _locale_ok
 
 
-def gen_field(r, i):
+# names of the sorted-by attribute / mapping key, by class.  None of them contains '/' or ',' (the separators of the
+# option grammar), '"', '<' or '>' (the tag grammar); names with white space can only be written quoted or in sort_expr.
+KEY_NAMES = {
+    'mixedcase': ['Title', 'title', 'TITLE', 'getRank', 'sortKey', 'K', 'UPPER', 'lowerUPPER', 'Mixed_Case9', 'iD'],
+    # words of the option grammar itself (functions, directions, attributes of the tag) and words that contain them
+    'optionword': ['cmp', 'nocase', 'asc', 'desc', 'DESC', 'Asc', 'locale', 'strcoll', 'locale_nocase', 'rcmp',
+                   'reverse', 'mapping', 'sort', 'sort_expr', 'size', 'description', 'nocase_title', 'Cmp', 'NoCase'],
+    'punct': ['sort_key', '_k', 'k_', '__k__', 'sort-key', 'sequence-key', 'Sort-Key', 'a.b', 'k:1', '9k', '0', 'k+1',
+              "k'", 'k;', 'k#', 'k%s', '%(k)s', '(k)', 'k[0]', '$k', 'k!', '~k', 'k*', 'k?', 'k|b', 'k\\n', 'k&b',
+              '&dtml-k;', 'k@b', '-', '_', '.'],
+    'space': ['sort key', 'Sort Key', 'k\tb', 'a  b'],
+    'nonascii': ['Größe', 'İd', 'ключ', 'Ключ', 'ǅ',
+                 'ß', 'naïve', '名前', 'ḱ', 'ＫＥＹ', '\U0001d40a', 'Ångström',
+                 'Σίσυφος', 'k b', 'µ'],
+    'long': ['LongKeyName' * 20, 'x' * 300 + 'Y'],
+}
+KEY_NAME_CLASSES = ['plain', 'plain', 'plain', 'mixedcase', 'mixedcase', 'mixedcase', 'optionword', 'optionword',
+                    'punct', 'punct', 'space', 'nonascii', 'nonascii', 'long']
+# names under which a comparison function of the caller is found in the namespace
+FN_ALIASES = ['fn%d', 'fn%d', 'byKey%d', 'MyCmp%d', 'CMPFN%d', 'cmp_Fn%d', 'Nocase%d', 'by-key%d', 'by.key%d',
+              'Сравни%d', 'Größer%d', 'Desc%d']
+UNQUOTABLE = set(' \t\r\n\x0b\x0c="<>') | {chr(c) for c in range(33)}
+
+
+def name_variants(name):
+    """the other spellings a normalisation of the option text would turn `name` into"""
+    vs = [name.lower(), name.upper(), name.swapcase(), name.title(), name.capitalize(), name.casefold(),
+          unicodedata.normalize('NFKC', name), unicodedata.normalize('NFKD', name), name.strip(),
+          name.replace('-', '_'), name.replace('_', '-'), name.replace(' ', '_'), name.replace(' ', '')]
+    out = []
+    for v in vs:
+        if v != name and v not in out and v != 'eid':
+            out.append(v)
+    return out
+
+
+def gen_name(r, i, used):
+    for _ in range(20):
+        cls = r.choice(KEY_NAME_CLASSES)
+        name = 'k%d' % i if cls == 'plain' else r.choice(KEY_NAMES[cls])
+        if name not in used:
+            return name, cls
+    return 'k%d' % i, 'plain'
+
+
+def gen_field(r, i, used=()):
     kind = r.choice(KINDS)
-    f = {'name': 'k%d' % i, 'type': kind, 'fn': None, 'conv': None, 'alias': None, 'nonone': False}
+    name, ncls = gen_name(r, i, used)
+    if used and r.random() < 0.15:
+        # two options whose names differ in case / normalisation only
+        vs = [v for v in name_variants(used[0]) if v not in used and '/' not in v and ',' not in v]
+        if vs:
+            name, ncls = r.choice(vs), 'variant_of_other_field'
+    f = {'name': name, 'name_class': ncls, 'type': kind, 'fn': None, 'conv': None, 'alias': None, 'nonone': False}
     c = r.random()
     if kind == 'strnc' and c < 0.85:
         fk = 'nocase'
@@ -191,14 +252,15 @@ def gen_field(r, i):
         f['fn'] = 'u_%s_%s' % (base, f['conv'])
         if r.random() < 0.5:
             # an alias: the same name in the same (shared) template means another function next time
-            f['alias'] = 'fn%d' % i
+            # (in any spelling: names of the namespace are case sensitive and need not be identifiers)
+            f['alias'] = r.choice(FN_ALIASES) % i
     f['kind'] = fk
     f['desc'] = r.random() < 0.3
     c = r.random()
     if f['desc']:
-        f['dirword'] = 'desc' if c < 0.7 else r.choice(['DESC', 'Desc'])
+        f['dirword'] = 'desc' if c < 0.7 else r.choice(['DESC', 'Desc', 'dESC'])
     else:
-        f['dirword'] = None if c < 0.75 else r.choice(['asc', 'ASC', 'Asc'])
+        f['dirword'] = None if c < 0.75 else r.choice(['asc', 'ASC', 'Asc', 'aSc'])
     return f
 
 
@@ -207,8 +269,18 @@ def gen_case(r, tier):
     nfields = r.choice([0, 1, 1, 1, 2, 2])
     fields = []
     for i in range(nfields):
-        fields.append(gen_field(r, i))
+        fields.append(gen_field(r, i, tuple(f['name'] for f in fields)))
     container = r.choice(['obj', 'obj', 'mapping', 'tuple'])
+    # distractors: entries under the names a normalised spelling of the option would look up, with keys of the
+    # same type that have nothing to do with the real ones
+    taken = {f['name'] for f in fields} | {'eid'}
+    distract = []
+    if r.random() < 0.7:
+        for f in fields:
+            for v in name_variants(f['name']):
+                if v not in taken and r.random() < 0.8:
+                    taken.add(v)
+                    distract.append((v, f['type']))
     if nfields == 0:
         container = r.choice(['plain', 'tuple'])
     rows, elems = [], []
@@ -227,6 +299,9 @@ def gen_case(r, tier):
             row.append(mv)
             if code != 'missing':
                 attrs[f['name']] = pv
+        for v, kind in distract:
+            if r.random() < 0.85:
+                attrs[v] = mk_key(kind, r.randrange(4), r)[0]
         if nfields == 0:
             code = r.randrange(dom)
             pv, mv = mk_key(item_kind, code, r)
@@ -248,7 +323,13 @@ def gen_case(r, tier):
             'via': r.choice(['sort', 'sort', 'sort_expr']), 'rev_via': r.choice(['reverse', 'reverse_expr']),
             'seqtype': r.choice(['list', 'tuple', 'iter']), 'batch': r.choice([None, None, None, 2, 3]),
             'elems': elems, 'sorted': nfields > 0 or r.random() < 0.8, 'item_kind': item_kind,
-            'isort_spelling': r.choice(['', 'sequence-item']), 'fn_via': r.choice(['kw', 'kw', 'client', 'mapping'])}
+            'isort_spelling': r.choice(['', 'sequence-item']), 'fn_via': r.choice(['kw', 'kw', 'client', 'mapping']),
+            'distractors': [v for v, _ in distract],
+            # how the sort attribute is written: sort="spec", sort=spec (when the spec allows it), bare `sort` (empty spec)
+            'quoting': r.choice(['quoted', 'quoted', 'unquoted', 'bare']),
+            # namespace entries that share the name of a predefined function / a direction word / an attribute of the
+            # tag but mean something else: the predefined functions are not looked up in the namespace
+            'shadow': r.random() < 0.12}
     # (sort_expr evaluating to 'sequence-item' is not special-cased by the tag; only sort= is)
 
 
@@ -287,6 +368,51 @@ def template(src):
     return t
 
 
+class Hang(Exception):
+    pass
+
+
+def _alarm(*a):
+    raise Hang()
+
+
+HANGS = [0]
+
+
+def opposite_fn(f):
+    """a function that orders the other way round than the one field f asks for (for distractor names)"""
+    base = f['fn'].split('_')[1]
+    return user_fn('cmp' if base == 'rcmp' else 'rcmp', f['conv'])
+
+
+def shadow_names():
+    """namespace entries named like the predefined functions, the direction words and attributes of the tag"""
+    d = {n: rcmp for n in ('cmp', 'nocase', 'locale', 'strcoll', 'locale_nocase', 'strcoll_nocase', 'asc', 'ASC')}
+    d.update({'desc': cmp, 'DESC': cmp, 'sort': 'eid', 'sort_expr': 'eid', 'reverse': 1, 'reverse_expr': 1,
+              'mapping': 1, 'sequence-item': 'eid'})
+    return d
+
+
+def sort_attr(case, spec):
+    """the sort attribute as written in the tag"""
+    q = case.get('quoting', 'quoted')
+    if q == 'bare' and spec == '':
+        return 'sort'
+    if q == 'unquoted' and spec and not (set(spec) & UNQUOTABLE):
+        return 'sort=%s' % spec
+    return 'sort="%s"' % spec
+
+
+def elem_state(elems):
+    """what the elements hold (names and identities of the values), to see whether the rendering wrote to them"""
+    out = []
+    for e in elems:
+        v = e[1] if isinstance(e, tuple) and len(e) == 2 else e
+        d = v if isinstance(v, dict) else getattr(v, '__dict__', None)
+        out.append([(k, id(x)) for k, x in d.items()] if d is not None else None)
+    return out
+
+
 def observe(case):
     attrs = []
     kw = {}
@@ -294,6 +420,14 @@ def observe(case):
     for f in case['fields']:
         if f.get('conv'):
             names[f.get('alias') or f['fn']] = user_fn(f['fn'].split('_')[1], f['conv'])
+    # other spellings of the functions' names mean the opposite order
+    for f in case['fields']:
+        if f.get('conv'):
+            for v in name_variants(f.get('alias') or f['fn']):
+                names.setdefault(v, opposite_fn(f))
+    if case.get('shadow'):
+        for k, v in shadow_names().items():
+            names.setdefault(k, v)
     # where the namespace finds the comparison functions: keyword / attribute of the client / mapping argument
     args = ()
     if case.get('fn_via') == 'client':
@@ -310,7 +444,7 @@ def observe(case):
             attrs.append('sort_expr="sk"')
             kw['sk'] = spec
         else:
-            attrs.append('sort="%s"' % spec if spec or True else 'sort')
+            attrs.append(sort_attr(case, spec))
     if case['reverse']:
         if case['rev_via'] == 'reverse_expr':
             attrs.append('reverse_expr="1==1"')
@@ -324,16 +458,34 @@ def observe(case):
     src = '<dtml-in L %s>%s</dtml-in>' % (' '.join(attrs), body)
     elems = case['elems']
     snapshot = list(elems)
+    state = elem_state(elems)
     L = elems if case['seqtype'] == 'list' else (tuple(elems) if case['seqtype'] == 'tuple' else iter(list(elems)))
     before = copy.copy(L) if case['seqtype'] != 'iter' else None
+    # compiling and rendering take milliseconds; what has not returned after 2 s of CPU time (or 20 s of wall time:
+    # the machine may be busy with other checks) is taken not to terminate.  Once a few have been seen the others
+    # get less time, so a change that makes many of them hang cannot stall the check
+    limit = 2.0 if HANGS[0] < 3 else 0.25
+    old = signal.signal(signal.SIGALRM, _alarm)
+    oldv = signal.signal(signal.SIGVTALRM, _alarm)
+    signal.setitimer(signal.ITIMER_REAL, limit * 10)
+    signal.setitimer(signal.ITIMER_VIRTUAL, limit)
     try:
         out = template(src)(*args, L=L, **kw)
+    except Hang:
+        HANGS[0] += 1
+        return {'src': src, 'exc': 'Hang: no result after %.2f s of CPU time / %.1f s' % (limit, limit * 10)}
     except Exception as e:  # noqa
         return {'src': src, 'exc': type(e).__name__ + ': ' + str(e)[:60]}
+    finally:
+        signal.setitimer(signal.ITIMER_VIRTUAL, 0)
+        signal.setitimer(signal.ITIMER_REAL, 0)
+        signal.signal(signal.SIGVTALRM, oldv)
+        signal.signal(signal.SIGALRM, old)
     res = {'src': src, 'raw': out}
     if case['container'] == 'plain':
         res['raw_is_item'] = True
     res['mutated'] = (case['seqtype'] != 'iter' and (L != before or any(a is not b for a, b in zip(L, snapshot))))
+    res['elems_mutated'] = elem_state(elems) != state or any(a is not b for a, b in zip(elems, snapshot))
     return res
 
 
@@ -454,6 +606,8 @@ def oracle_plain(case, obs):
     bad = []
     if obs.get('mutated'):
         bad.append("the caller's sequence was modified")
+    if obs.get('elems_mutated'):
+        bad.append("the elements of the caller's sequence were modified")
     toks = [t for t in obs['raw'].split(',') if t != '']
     want = [str(case['elems'][e]) for e in expected_order(case)]
     if case['batch']:
@@ -470,6 +624,8 @@ def oracle(case, obs, ids):
         return oracle_plain(case, obs)
     if obs.get('mutated'):
         bad.append("the caller's sequence was modified")
+    if obs.get('elems_mutated'):
+        bad.append("the elements of the caller's sequence were modified")
     full = case['batch'] is None
     if full and sorted(ids) != list(range(n)):
         bad.append('displayed elements %s are not a permutation of 0..%d' % (ids, n - 1))
@@ -525,12 +681,28 @@ def run(res, tier, have_driver):
                 'dates: weeks), found as keyword / client attribute / mapping entry, under its own name or an alias '
                 'that is bound to another function in the next rendering of the same compiled template; asc / desc '
                 'in every spelling (omitted, asc, ASC, Asc, desc, DESC, Desc), sort= and sort_expr=, reverse / '
-                'reverse_expr, list / tuple / iterator, optional batch; when no key is None the shown order '
+                'reverse_expr, list / tuple / iterator, optional batch; names of the sort keys (attribute / mapping key / '
+                'method) taken as spelled: k0, mixed case (Title, getRank, sortKey, UPPER), words of the option grammar '
+                '(cmp, nocase, asc, desc, DESC, locale, reverse, sort, description), punctuation / digits (sort-key, _k, '
+                'a.b, 9k, k%s, &dtml-k;), white space inside (quoted or sort_expr only), non-ASCII (Größe, İd, ключ, ǅ, ß, '
+                'full-width, astral, decomposed accents), 220..301 characters long, two options whose names differ in '
+                'case only; in 70% of the cases the elements carry distractor entries with unrelated keys under the '
+                'lower / upper / swapcase / title / capitalize / casefold / NFKC / NFKD / stripped / hyphen<->underscore '
+                'spellings of every key name; caller-supplied comparison functions under mixed-case, hyphenated, dotted '
+                'and non-ASCII names, the other spellings of these names bound to a function with the opposite order; '
+                'in 12% of the cases the namespace binds cmp / nocase / locale / strcoll / asc / desc / sort / reverse / '
+                'mapping to something else (predefined names are not looked up); the sort attribute written quoted, '
+                'unquoted (when the spec has no white space) or bare (empty spec); every compilation + rendering under a '
+                'limit of 2 s CPU time / 20 s (no result = failure); the elements themselves (attribute dicts / mappings) must be left as '
+                'they were; when no key is None the shown order '
                 '(also a batch window, also reversed) must equal the unique stable order; non-trivial = distinct '
                 'case with >= 3 elements, a sort field and at least one duplicate or None key')
     n = 8000 if tier == 'quick' else 160000
     cases, obss, reqs = [], [], []
     for _ in range(n):
+        if HANGS[0] >= 20:
+            res.count('stopped_after_20_renderings_without_result')
+            break       # each of them is a reported failure; more of them would only cost their time limits
         case = gen_case(r, tier)
         obs = observe(case)
         cases.append(case)
@@ -550,6 +722,19 @@ def run(res, tier, have_driver):
             elif f.get('fn'):
                 res.count('builtin_fn=' + f['fn'])
             res.count('direction_word=%s' % f.get('dirword'))
+            res.count('keyname=' + f['name_class'])
+            if f['name'] != f['name'].lower():
+                res.count('keyname_not_lowercase' + ('_with_slash_in_spec' if cmp_path(case) else '_plain_spec'))
+            if f.get('alias') and f['alias'] != f['alias'].lower():
+                res.count('userfn_alias_not_lowercase')
+        if case['distractors']:
+            res.count('with_distractor_names')
+        if case['shadow']:
+            res.count('namespace_shadows_predefined_names')
+        if case['sorted'] and 'sort_expr' not in obs['src']:
+            a = obs['src'].split(' ')[2]
+            res.count('sort_attr=' + ('bare' if a.startswith('sort>') or a == 'sort' else
+                                      'quoted' if a.startswith('sort="') else 'unquoted'))
         if not case['fields']:
             res.count('item_keytype=' + case['item_kind'])
         if case['sorted'] and 'exc' not in obs and not any_none(case):
@@ -564,17 +749,17 @@ def run(res, tier, have_driver):
             else:
                 res.oracle_fail.append({'case': {k: v for k, v in case.items() if k != 'elems'},
                                         'what': 'rendering raised ' + obs['exc'], 'src': obs['src'],
-                                        'sort_spec': spec_of(case), 'elems': repr(case['elems'])[:600]})
+                                        'sort_spec': spec_of(case), 'elems': repr(case['elems'])[:1500]})
             continue
         ids = displayed_ids(case, obs)
         for f in oracle(case, obs, ids):
             res.oracle_fail.append({'case': {k: v for k, v in case.items() if k != 'elems'}, 'what': f,
                                     'src': obs['src'], 'sort_spec': spec_of(case), 'shown': ids,
-                                    'shown_raw': obs['raw'], 'elems': repr(case['elems'])[:600]})
+                                    'shown_raw': obs['raw'], 'elems': repr(case['elems'])[:1500]})
         keys = [keytuple(case, e) for e in range(len(case['rows']))]
         if len(keys) >= 3 and case['sorted'] and (len(set(keys)) < len(keys) or any(has_none(case, e) for e in range(len(keys)))):
             res.nt((obs['src'], spec_of(case), tuple(keys)))
-    for i in (0, 7, len(cases) // 2, len(cases) - 1):
+    for i in sorted({0, min(7, len(cases) - 1), len(cases) // 2, len(cases) - 1}):
         c = {k: v for k, v in cases[i].items() if k != 'elems'}
         res.sample({'case': c, 'observation': {k: v for k, v in obss[i].items()}})
     if have_driver:
@@ -608,13 +793,18 @@ def search_more(res, tier):
     r = common.rng('C13-more')
     found = []
     for _ in range(4000):
+        if HANGS[0] >= 25:
+            break
         case = gen_case(r, tier)
         obs = observe(case)
         if 'exc' in obs:
+            if obs['exc'].startswith('Hang'):
+                found.append({'case': {k: v for k, v in case.items() if k != 'elems'}, 'what': 'rendering: ' + obs['exc'],
+                              'src': obs['src'], 'sort_spec': spec_of(case), 'elems': repr(case['elems'])[:1500]})
             continue
         for f in oracle(case, obs, displayed_ids(case, obs)):
             found.append({'case': {k: v for k, v in case.items() if k != 'elems'}, 'what': f, 'src': obs['src'],
-                          'sort_spec': spec_of(case), 'shown_raw': obs['raw'], 'elems': repr(case['elems'])[:600]})
+                          'sort_spec': spec_of(case), 'shown_raw': obs['raw'], 'elems': repr(case['elems'])[:1500]})
         if len(found) > 3:
             break
     return found
